@@ -95,6 +95,7 @@ def classify(body):
                 break
         # ---- COUNTER
         steps = {}  # local -> (direction, block)
+        exact_down = set()  # counters that move down by one or by min(c, n): they reach 0 without passing it
         if not kind:
             for bi in blocks:
                 for st in body.blocks[bi]["s"]:
@@ -130,10 +131,13 @@ def classify(body):
                                     ro = ix.resolve(other)
                                     if (ro[0] == "const" and ro[1] > 0) or (ro[0] == "call" and (ix.callee(ro[1]) or "").split("::")[-1] == "len"):
                                         k = 1
+                                        exact_down.add(c_)
                     if k is None or k <= 0 or src != c_:
                         continue
                     if all(body.dominates(bi, l_) for l_ in latches):
                         steps[c_] = ("up" if op == "Add" else "down", bi)
+                        if op == "Sub" and k == 1:
+                            exact_down.add(c_)
             for si in sorted(blocks):
                 ts = body.blocks[si]["t"]
                 if ts["k"] != "switch" or kind:
@@ -142,6 +146,16 @@ def classify(body):
                 if not outs:
                     continue
                 r = ix.resolve(ts["a"])
+                if r[0] == "rv" and r[1]["k"] == "bin" and r[1]["op"] in ("Ne", "Eq"):
+                    # `while c != 0` with a counter that moves down by exactly one, or by min(c, n): it reaches 0 exactly
+                    for cnt_op, other in ((r[1]["a"], r[1]["b"]), (r[1]["b"], r[1]["a"])):
+                        c_ = _strip_cast(ix, cnt_op)
+                        if c_ in steps and steps[c_][0] == "down" and c_ in exact_down and const_int(other) == 0:
+                            false_t = next((tg for v, tg in ts["arms"] if int(v) == 0), None)
+                            leaves_on = (false_t in outs) if r[1]["op"] == "Ne" else (ts.get("else") in outs)
+                            if leaves_on:
+                                kind, detail = "COUNTER", f"{body.local_names().get(c_) or '_' + str(c_)} stepped down to exactly 0, exit on {r[1]['op']} 0"
+                    continue
                 if not (r[0] == "rv" and r[1]["k"] == "bin" and r[1]["op"] in ("Lt", "Le", "Gt", "Ge")):
                     continue
                 a, b_ = r[1]["a"], r[1]["b"]
@@ -210,4 +224,34 @@ def classify(body):
 
         dom_calls = [_sig(body.blocks[bi]["t"]) for bi in sorted(blocks) if body.blocks[bi]["t"]["k"] == "call" and all(body.dominates(bi, l_) for l_ in latches)]
         out.append(dict(head=h, blocks=blocks, kind=kind, detail=detail, size=len(blocks), dom_calls=dom_calls))
+    return out
+
+
+def stepped_up_counters(body):
+    """Locals that some loop of the body steps up by a positive constant on every iteration (COUNTER/ACCESS shape)."""
+    ix = BodyIndex(body)
+    out = set()
+    for h, (blocks, _assigned) in Explorer(body).loops().items():
+        latches = [p for p in body.pred(h) if p in blocks]
+        for bi in blocks:
+            for st in body.blocks[bi]["s"]:
+                if st["k"] != "assign" or st["lhs"]["p"]:
+                    continue
+                rv = st["rv"]
+                binrv = None
+                if rv["k"] == "use":
+                    p = op_place(rv["a"])
+                    if p and len(p["p"]) == 1 and isinstance(p["p"][0], dict) and p["p"][0].get("f") == 0:
+                        d0 = ix.single_def(p["l"])
+                        if d0 and d0[0] == "assign" and d0[3]["rv"]["k"] == "bin":
+                            binrv = d0[3]["rv"]
+                elif rv["k"] == "bin":
+                    binrv = rv
+                if not binrv or binrv["op"].replace("WithOverflow", "").replace("Unchecked", "") != "Add":
+                    continue
+                k, src = const_int(binrv["b"]), _strip_cast(ix, binrv["a"])
+                if k is None:
+                    k, src = const_int(binrv["a"]), _strip_cast(ix, binrv["b"])
+                if k is not None and k > 0 and src == st["lhs"]["l"] and all(body.dominates(bi, l_) for l_ in latches):
+                    out.add(st["lhs"]["l"])
     return out
